@@ -28,20 +28,29 @@ inductive UrlSum where
   | format (fmt : Text) (args : List (Text × Text))   -- `name = self.params.<field>`
   deriving DecidableEq, Repr
 
-def isWordChar (c : Char) : Bool := c.isAlphanum || c == '_'
+/-- a character other than a brace -/
+def notBrace (c : Char) : Bool := c != '{' && c != '}'
 
-/-- `Regex("\{([_\w]+)\}").replace_all(path, "{snake($1)}")` on ASCII paths -/
-def fixPlaceholders : Nat → Text → Text
-  | 0, t => t
-  | _ + 1, [] => []
+/-- `Regex("\{([^{}]+)\}").replace_all(path, "{ident($1)}")`: every placeholder is spelled like the
+identifier of the parameter it names (the named format arguments are those identifiers) -/
+def fixPlaceholders : Nat → Text → Except Panic Text
+  | 0, t => .ok t
+  | _ + 1, [] => .ok []
   | fuel + 1, c :: rest =>
     if c == '{' then
-      let w := rest.takeWhile isWordChar
-      let after := rest.dropWhile isWordChar
+      let w := rest.takeWhile notBrace
+      let after := rest.dropWhile notBrace
       if !w.isEmpty && after.head? == some '}' then
-        ('{' :: toSnake w) ++ ('}' :: fixPlaceholders fuel (after.drop 1))
-      else '{' :: fixPlaceholders fuel rest
-    else c :: fixPlaceholders fuel rest
+        match sanitize w, fixPlaceholders fuel (after.drop 1) with
+        | .ok i, .ok t => .ok (('{' :: i) ++ ('}' :: t))
+        | .error e, _ => .error e
+        | _, .error e => .error e
+      else match fixPlaceholders fuel rest with
+        | .ok t => .ok ('{' :: t)
+        | .error e => .error e
+    else match fixPlaceholders fuel rest with
+      | .ok t => .ok (c :: t)
+      | .error e => .error e
 
 /-- `ParamKey`: query keys of iterable inputs get the `[]` suffix -/
 def paramKey (p : Param) : Text :=
@@ -72,7 +81,10 @@ def makeUrl (op : Operation) : Except Panic UrlSum :=
   if pathInputs.isEmpty then .ok (.literal op.path)
   else match mapE (fun p => sanitize p.name) pathInputs with
     | .error e => .error e
-    | .ok ids => .ok (.format (fixPlaceholders (op.path.length + 1) op.path) (ids.map fun i => (i, i)))
+    | .ok ids =>
+      match fixPlaceholders (op.path.length + 1) op.path with
+      | .error e => .error e
+      | .ok fmt => .ok (.format fmt (ids.map fun i => (i, i)))
 
 structure SetterSum where
   name : Text
